@@ -6247,6 +6247,11 @@ static void general_invoke_callback(int decode_args_from_libffi,
     py_res = PyObject_Call(py_ob, py_args, NULL);
     if (py_res == NULL)
         goto error;
+    if (SIGNATURE(1)->ct_flags & (CT_STRUCT | CT_UNION)) {
+        /* the result may be a list or dict naming only some of the fields:
+           the other ones must be zero like with ffi.new(), not garbage */
+        memset(result, 0, SIGNATURE(1)->ct_size);
+    }
     if (convert_from_object_fficallback(result, SIGNATURE(1), py_res,
                                         decode_args_from_libffi) < 0) {
         extra_error_line = ", trying to convert the result back to C";
